@@ -142,8 +142,10 @@ def work_list(ctx):
     """(task kind, lock kind, programs, parameter).  "enum": depth-first enumeration of ALL maximal schedules, up to
     `cap` runs; when the cap is hit, `extra` seeded random schedules are added.  "rand": seeded random schedules."""
     W = []
-    cap, extra = ctx.n(700, 90000), ctx.n(150, 4000)
-    E = lambda kind, progs: W.append(("enum", kind, progs, (cap, extra, ctx.rng.randrange(10 ** 9))))  # noqa: E731
+    # cap: schedules enumerated per program set (all of them monitored); keep: how many of them are also compared
+    # with the Coq model (the first half of `keep`, then every 29th); extra: random schedules added when capped
+    cap, keep, extra = ctx.n(700, 120000), ctx.n(700, 2500), ctx.n(150, 1500)
+    E = lambda kind, progs: W.append(("enum", kind, progs, (cap, keep, extra, ctx.rng.randrange(10 ** 9))))  # noqa: E731
     # ---- condition-variable lock
     for progs in multisets(cond_thread_progs(2), 2):                     # all 2 threads x 2 cycles
         E("cond", progs)
@@ -174,7 +176,7 @@ def work_list(ctx):
                   [[("w", "/u/c/", "")], [("w", "/u/c/", "")]], [[("r", "/u/c/", "")], [("r", "/u/d/", "")]],
                   [[("r", "/u/c/", "x")], [("r", "/u/c/", "")], [("r", "/u/c/", "x")]],
                   [[("r", "/u/c/", ""), ("w", "/u/c/", "")], [("r", "/u/c/", "")]]):
-        W.append(("enum", "comp", progs, (ccap, ctx.n(120, 3000), ctx.rng.randrange(10 ** 9))))
+        W.append(("enum", "comp", progs, (ccap, 0, ctx.n(120, 3000), ctx.rng.randrange(10 ** 9))))
     # ---- larger configurations: seeded random schedules
     rng = ctx.rng
     big = []
@@ -207,25 +209,32 @@ def run_task(task):
     nthreads = len(progs)
     exhausted = False
 
-    def take(r):
-        nonlocal steps, contended, violation
-        key = tuple(r["schedule"])
+    monitored_only = 0
+
+    def take(r, keep_it=True):
+        nonlocal steps, contended, violation, monitored_only
+        key = hash(tuple(r["schedule"]))
         if key in seen:
             return
         seen.add(key)
         steps += len(r["schedule"])
         cont = any(len(en) < nthreads for en in r["enabled"][:max(1, len(r["enabled"]) // 2)])
         contended += 1 if cont else 0
-        cases.append((r["schedule"], r["trace"], cont))
+        if keep_it or r["violation"] is not None:
+            cases.append((r["schedule"], r["trace"] if kind != "comp" else [], cont))
+        else:
+            monitored_only += 1
         if r["violation"] is not None and violation is None:
             violation = dict(kind=kind, programs=progs, schedule=r["schedule"], what=r["violation"], trace_tail=r["trace"][-3:])
 
     if tkind == "enum":
-        cap, extra, seed = param
+        cap, keep, extra, seed = param
+        if kind == "comp":
+            keep = 400          # nothing is sent to Coq for the composition; only keys for the coverage count
         n = 0
         for r in X.enumerate_schedules(kind, progs, limit=cap):
+            take(r, cap <= keep or n < keep // 2 or (n % 29 == 0 and len(cases) < keep))
             n += 1
-            take(r)
             if violation:
                 break
         exhausted = n < cap and violation is None
@@ -242,7 +251,7 @@ def run_task(task):
             take(X.random_schedule(kind, progs, rng))
             if violation:
                 break
-    return task, cases, violation, dict(steps=steps, contended=contended, exhausted=exhausted)
+    return task, cases, violation, dict(steps=steps, contended=contended, exhausted=exhausted, monitored_only=monitored_only)
 
 
 # ------------------------------------------------------------------------------------------ real threads / processes
@@ -369,6 +378,9 @@ def run(ctx):
         for task, cases, violation, st in ex.map(run_task, W, chunksize=1):
             tkind, kind, progs, param = task
             steps += st["steps"]
+            if st["monitored_only"]:
+                ctx.count("schedules-monitored-only:%s" % kind, st["monitored_only"])
+                ctx.evaluations += st["monitored_only"]
             ctx.count("schedules:%s:%s" % (kind, tkind), len(cases))
             ctx.count("schedules:%s:threads=%d" % (kind, len(progs)), len(cases))
             if tkind == "enum":
@@ -383,7 +395,8 @@ def run(ctx):
                 first_violation = violation
     ctx.extra["scheduler_steps_on_real_classes"] = steps
     ctx.traces_validated = sum(len(v) for k, v in per_kind.items() if k != "comp")
-    ctx.log("ran %d schedules (%d steps) on the real classes" % (ctx.traces_validated, steps))
+    ctx.log("ran %d schedules (%d steps) on the real classes, %d of them compared with the model" % (
+        ctx.evaluations, steps, ctx.traces_validated))
     if first_violation is not None:
         v = first_violation
         ctx.violation("C11 %s lock: %s" % (v["kind"], v["what"]),
